@@ -510,6 +510,10 @@ class Project(MessageHandler):
 
         failedTasks: list[Any] = []
 
+        # Containers whose children were all placed by the milestone pass above
+        # are complete already: tasks depending on them must be ready from the start.
+        self._updateContainerTaskStatus(scIdx)
+
         while tasks:
             taskToRemove: Optional[Any] = None
             for task in tasks:
